@@ -30,10 +30,17 @@ func vrtC11SumCopy(ls []string, nfMax int, allowAbsent bool) {
 	vrtCmdAssumeClock(h, now)
 	vrt.SetClock(uint32(now))
 	nf := 1 + vrt.Choose("files", nfMax)
+	aid := vrtArchiveChoice(na)
+	allOnMulti := aid == ArchiveIDAll && na > 1
 	names := []string{"a.wsp", "b.wsp"}
 	var paths []string
 	for f := 0; f < nf; f++ {
-		img, _ := vrtCmdInvImage(h, vrt.N("f", f), now)
+		var img []byte
+		if f == 0 {
+			img, _ = vrtCmdInvImage(h, vrt.N("f", f), now)
+		} else {
+			img = vrtCmdSecondImage(h, vrt.N("f", f), now, allOnMulti)
+		}
 		paths = append(paths, vrt.TempFile("base/item1/"+names[f], img))
 	}
 	base := filepath.Dir(filepath.Dir(paths[0]))
@@ -45,11 +52,10 @@ func vrtC11SumCopy(ls []string, nfMax int, allowAbsent bool) {
 	if destAbsent {
 		dp = vrt.NoFile("dst/item1/sum.wsp")
 	} else {
-		dimg, _ := vrtCmdInvImage(h, "d", now)
+		dimg := vrtCmdSecondImage(h, "d", now, allOnMulti)
 		dp = vrt.TempFile("dst/item1/sum.wsp", dimg)
 	}
 	dbase := filepath.Dir(filepath.Dir(dp))
-	aid := vrtArchiveChoice(na)
 	var from wt.Timestamp // default window in the quick tier
 	if vrt.Tier() == 1 {
 		from = vrtCmdInstant(h, "from")
